@@ -168,7 +168,11 @@ def check(pm: ProgramModel, ctx: Ctx) -> None:
     # leaf predicate sites ---------------------------------------------------------------------------
     leaf_sites(pm, ctx, mb)
     # variation points: step check --------------------------------------------------------------------
-    variation_points(pm, ctx, mb, vp)
+    try:
+        variation_points(pm, ctx, mb, vp)
+    except AnalysisError as exc:
+        ctx.unverified("C16-VP", "step-shape", loc(vp.unit.path, vp.node), f"step check not applicable: {exc.reason}")
+        variation_points_whole(pm, ctx, mb, vp)
     check_wrapper(pm, ctx, "C16-WRAP", "FMCountLeafs", "count_leaf_features", "fm_count_leafs")
     check_wrapper(pm, ctx, "C16-WRAP", "FMLeafFeatures", "get_leaf_features", "fm_leaf_features")
     check_wrapper(pm, ctx, "C16-WRAP", "FMMaxDepthTree", "max_depth_tree", "fm_max_depth_tree")
@@ -301,6 +305,16 @@ def variation_points(pm: ProgramModel, ctx: Ctx, mb: ModelBuilder, fn: Any) -> N
                            f"variation point ({got!r})")
             if len(r2) != 1 + (1 if variants else 0):
                 bad.append(f"{label}: unexpected keys in the result")
+    variation_points_whole(pm, ctx, mb, fn)
+    ctx.analysed["C16-VP:step-evaluations"] = n
+    ctx.check(not bad, rule, "step", loc(fn.unit.path, loop),
+              f"each iteration maps the popped feature to the children of its non-mandatory "
+              f"relations (iff any) and pushes all its children ({n} abstract states)",
+              bad="; ".join(bad[:2]))
+
+
+def variation_points_whole(pm: ProgramModel, ctx: Ctx, mb: ModelBuilder, fn: Any) -> None:
+    rule = "C16-VP"
     # whole function on the tree family
     from ..model import rich_model
     from ..roundtrip import features as all_features
@@ -322,11 +336,6 @@ def variation_points(pm: ProgramModel, ctx: Ctx, mb: ModelBuilder, fn: Any) -> N
         ctx.check(gotn == want, rule, f"tree:{name}", loc(fn.unit.path, fn.node),
                   f"variation points of abstract tree '{name}' match the definition",
                   bad=f"variation_points on '{name}' gives {str(gotn)[:120]}, definition gives {str(want)[:120]}")
-    ctx.analysed["C16-VP:step-evaluations"] = n
-    ctx.check(not bad, rule, "step", loc(fn.unit.path, loop),
-              f"each iteration maps the popped feature to the children of its non-mandatory "
-              f"relations (iff any) and pushes all its children ({n} abstract states)",
-              bad="; ".join(bad[:2]))
 
 
 class _IdDict(dict):  # type: ignore[type-arg]
